@@ -80,7 +80,11 @@ func verifC19_read() {
 	if websocket.VerifParam("typed", 0) == 1 {
 		d1 = vIntDocs[websocket.VerifChoose("idoc1", len(vIntDocs))]
 		bytesTarget = websocket.VerifChoose("bytesTarget", 2) == 1
-		if bytesTarget {
+		if websocket.VerifParam("strTarget", 0) == 1 {
+			// a *string target: JSON strings with a raw control character inside the quotes, a bad escape, not a string
+			bytesTarget = false
+			d2 = vBadStrDocs[websocket.VerifChoose("sdoc2", len(vBadStrDocs))]
+		} else if bytesTarget {
 			d2 = vBadBytesDocs[websocket.VerifChoose("bdoc2", len(vBadBytesDocs))]
 		} else {
 			d2 = vBadIntDocs[websocket.VerifChoose("idoc2", len(vBadIntDocs))]
@@ -132,6 +136,9 @@ func verifC19_read() {
 
 var vIntDocs = []string{`12`, `-7`}
 
+// documents that are invalid for (or as) a string: raw control characters inside the quotes are not JSON
+var vBadStrDocs = []string{"\"a\tb\"", "\"a\nb\"", "\"a\x00\"", "\"\x1f\"", `"a\qb"`, `12`, `"unterminated`}
+
 // documents that are invalid for a []byte target: strings that are not base64, and other kinds of value
 var vBadBytesDocs = []string{`"x"`, `"@@@@"`, `1.5`, `{"a":1}`}
 
@@ -146,7 +153,10 @@ func verifC19ReadTyped(c *websocket.Conn, out func() []byte, bytesTarget bool) {
 	websocket.VerifReach("C19.read.typed-first")
 	websocket.VerifAssert(err1 == nil && (n1 == 12 || n1 == -7), "C19.read.typed-first-value")
 	var err2 error
-	if bytesTarget {
+	if websocket.VerifParam("strTarget", 0) == 1 {
+		var s2 string
+		err2 = Read(context.Background(), c, &s2)
+	} else if bytesTarget {
 		// a []byte target: the second document is a JSON string or not, but never base64 - invalid for the target with
 		// an error that is neither a syntax error nor a type error of the decoder
 		var b2 []byte
@@ -186,5 +196,27 @@ func verifC19_bpool() {
 	g.ReadFrom(strings.NewReader(`[1,2]`))
 	websocket.VerifAssert(string(g.Bytes()) == `[1,2]`, "C19.bpool.holds-exactly-what-was-read")
 	bpool.Put(g)
+	// buffers that are out at the same time are different buffers, also after a burst of returns larger than any
+	// internal ring or free list
+	const burst = 10
+	var out1, out2 []*bytes.Buffer
+	for i := 0; i < burst; i++ {
+		out1 = append(out1, bpool.Get())
+	}
+	for _, x := range out1 {
+		bpool.Put(x)
+	}
+	for i := 0; i < burst; i++ {
+		out2 = append(out2, bpool.Get())
+	}
+	distinct := true
+	for i := range out2 {
+		for j := 0; j < i; j++ {
+			if out2[i] == out2[j] {
+				distinct = false
+			}
+		}
+	}
+	websocket.VerifAssert(distinct, "C19.bpool.buffers-out-at-the-same-time-are-distinct")
 	websocket.VerifObserve("bpool", cp, fill)
 }
